@@ -6,7 +6,7 @@ import TracklibVerif.Drv.Util
 
   feats    features separated by `|`, vertices by `;`, coordinates by `,`          (`0,0;4,3|1,5/2;2,5/2`)
   res      `none` (default resolution) or `rx,ry`
-  margin   scalar
+  margin   scalar, or `tc:1` / `tc:0`: the index is created by `TrackCollection.createSpatialIndex(res, verbose=True/False)`
   late     `_` or `num@x,y;x,y|…`: `addFeature(track, num)` calls made after construction
   queries  separated by `|`, fields by `;`:
      info | grid | getcell;x;y | inter;8 scalars | cross;ax;ay;bx;by (fractional cell indices)
@@ -88,7 +88,7 @@ def query (num? : String → Option α) (shw : α → String) (fl : α → Int) 
       match kind, ns with
       | "getcell", [x, y] => pure (showRes (showOpt (fun (c : α × α) => s!"{shw c.1},{shw c.2}")) (getCellR ix (x, y)))
       | "inter", [a, b, c, d, e, f, g, h] => pure (showBool (isSegmentIntersects ⟨a, b, c, d⟩ ⟨e, f, g, h⟩))
-      | "cross", [ax, ay, bx, b_y] => pure (showCells (cellsCross fl (ax, ay) (bx, b_y)))
+      | "cross", [ax, ay, bx, b_y] => pure (showCells (cellsCross fl ix.csize ix.lsize (ax, ay) (bx, b_y)))
       | "gcross", [x1, y1, x2, y2] =>
         match getCellR ix (x1, y1) with
         | .error e => pure (showErr e)
@@ -97,7 +97,7 @@ def query (num? : String → Option α) (shw : α → String) (fl : α → Int) 
           | .error e => pure (showErr e)
           | .ok o2 =>
             match o1, o2 with
-            | some p1, some p2 => pure (showCells (cellsCross fl p1 p2))
+            | some p1, some p2 => pure (showCells (cellsCross fl ix.csize ix.lsize p1 p2))
             | _, _ => pure "none"
       | "pt", [x, y] => pure (showRes showNats (requestPoint fl ix (x, y)))
       | "seg", [x1, y1, x2, y2] => pure (showRes showNats (requestSeg fl ix (x1, y1) (x2, y2)))
@@ -121,13 +121,14 @@ def lateAdds (fl : α → Int) : Index α → List (Nat × List (α × α)) → 
 def run (num? : String → Option α) (shw : α → String) (fl : α → Int) (args : List String) : String :=
   match args with
   | [feats, res, margin, late, queries] =>
-    let parsed : Option (List (List (α × α)) × Option (α × α) × α × List (Nat × List (α × α))) := do
+    let parsed : Option (List (List (α × α)) × Option (α × α) × (α ⊕ Bool) × List (Nat × List (α × α))) := do
       let fs ← (splitTok feats '|').mapM (track? num?)
       let r ← if res == "none" then some none else
         match (splitTok res ',').mapM num? with
         | some [rx, ry] => some (some (rx, ry))
         | _ => none
-      let m ← num? margin
+      let m ← if margin == "tc:1" then some (Sum.inr true) else if margin == "tc:0" then some (Sum.inr false)
+        else (num? margin).map Sum.inl
       let lt ← (splitTok late '|').mapM (fun s =>
         match s.splitOn "@" with
         | [n, t] => do
@@ -139,7 +140,10 @@ def run (num? : String → Option α) (shw : α → String) (fl : α → Int) (a
     match parsed with
     | none => "bad-request"
     | some (fs, r, m, lt) =>
-      match build fl fs r m with
+      let built := match m with
+        | .inl mv => build fl fs r mv
+        | .inr verbose => createIndexTC fl fs r verbose
+      match built with
       | .error e => showErr e
       | .ok ix0 =>
         match lateAdds fl ix0 lt with
